@@ -843,6 +843,15 @@ class Registry:
         self.harnesses = {}  # name -> dict
         self.summaries = {}  # name -> dict(target, func)
         self.loop_contracts = {}  # name -> dict(target, ordinal, header, havoc, inv)
+        self.by_module = {}  # (kind, module name, contract name) -> dict: sidecars import each other, names may repeat
+
+    def lookup(self, kind, name, module_name):
+        """a contract named by a harness: the one defined in the harness function's own sidecar wins over a
+        same-named one of another sidecar that happens to be loaded too"""
+        d = self.by_module.get((kind, module_name, name))
+        if d is not None:
+            return d
+        return (self.summaries if kind == "summary" else self.loop_contracts)[name]
 
     def register(self, kind, f, args, kw):
         if kind == "harness":
@@ -855,11 +864,14 @@ class Registry:
             name = kw.get("name", f.name)
             self.summaries[name] = dict(name=name, func=f, target=args[0] if args else kw["target"],
                                         assumed=kw.get("assumed"), note=kw.get("note", ""))
+            self.by_module[("summary", f.module.name, name)] = self.summaries[name]
         elif kind == "loop_contract":
             name = kw.get("name", f.name if isinstance(f, FuncObj) else f.name)
             # f is a class with havoc / inv static methods
             self.loop_contracts[name] = dict(name=name, cls=f, target=args[0], ordinal=args[1],
                                              header=kw.get("header"))
+            mod = getattr(f, "module", None)
+            self.by_module[("loop_contract", getattr(mod, "name", None), name)] = self.loop_contracts[name]
 
 
 def load_sidecars(I, registry, files):
